@@ -122,3 +122,5 @@ def gen(rng, n, tier="quick"):
             st, v = call(datetime.date, y, m, dd)
             yield Case("date()", "ymd_to_ord %s %s %s" % (I(y), I(m), I(dd)),
                        I(v.toordinal()) if st == "ok" else E(v), {"ymd": [y, m, dd]})
+
+GROUPS = {"julian": gen}
